@@ -705,7 +705,7 @@ func (e limitsEngine) runMeter(c *LimitsCase, st *Stats) *Violation {
 	st.Runs++
 	st.Inc("meter_programs")
 	if len(ref.w.Events) != 2 || ref.out.IsErr {
-		return Violf("meter-harness", "meter program did not produce both probes: %v %q", EventKeys(ref.w.Events), ref.out.Result())
+		return Violf("harness", "meter program did not produce both probes: %v %q", EventKeys(ref.w.Events), ref.out.Result())
 	}
 	a, b := ref.w.Events[0], ref.w.Events[1]
 	turns := int64(c.Depth)
@@ -748,12 +748,19 @@ func (e limitsEngine) runStruct(c *LimitsCase, st *Stats) *Violation {
 	st.Runs++
 	st.Inc("struct_programs_" + c.Mode)
 	if ref.out.IsErr {
-		return Violf("struct-harness", "unlimited run of structural program failed: %q", ref.out.Result())
+		return Violf("harness", "unlimited run of structural program failed: %q", ref.out.Result())
 	}
 	st.SimSteps += ref.out.Steps
+	// sweep the limit from 1 to just beyond what the unlimited run actually used
 	lo, hi := 1, c.MaxLim
-	if c.hintOnly() {
-		lo, hi = c.MaxLim, c.MaxLim
+	switch c.Mode {
+	case "phys":
+		hi = ref.w.MaxFrames + 3
+	case "nest":
+		hi = ref.w.MaxNest + 3
+	}
+	if hi > 400 {
+		hi = 400
 	}
 	seenOK, seenCaught := false, false
 	firstOK := 0
@@ -846,7 +853,7 @@ func (e limitsEngine) runStruct(c *LimitsCase, st *Stats) *Violation {
 			}
 		} else {
 			if run.out.IsErr {
-				return fail(Violf("struct-harness", "%s limit %d: unexpected error %q", c.Mode, lim, run.out.Result()))
+				return fail(Violf("harness", "%s limit %d: unexpected error %q", c.Mode, lim, run.out.Result()))
 			}
 			if !seenOK {
 				seenOK, firstOK = true, lim
@@ -870,13 +877,11 @@ func (e limitsEngine) runStruct(c *LimitsCase, st *Stats) *Violation {
 			return fail(Violf("bound-exceeded", "physical limit %d: observed %d frames", lim, run.w.MaxFrames))
 		}
 	}
-	if !c.hintOnly() && !seenOK {
-		return Violf("struct-harness", "%s: no limit up to %d let the program finish", c.Mode, c.MaxLim)
+	if !seenOK {
+		return Violf("harness", "%s: no limit up to %d let the program finish", c.Mode, c.MaxLim)
 	}
 	return nil
 }
-
-func (c *LimitsCase) hintOnly() bool { return c.Sweep }
 
 func (e limitsEngine) Shrink(ci any) []any {
 	c := ci.(*LimitsCase)
